@@ -94,6 +94,8 @@ void point();               // explicit schedule point
 void yield_point();         // schedule point that prefers another thread
 int64_t now_ns();           // virtual clock (offset since start)
 void advance_clock(int64_t ns);
+// virtual time at which the calling thread last read any clock (clock_gettime, gettimeofday, absl::GetCurrentTimeNanos)
+int64_t last_clock_read_ns();
 
 struct Stamp { int tid; uint32_t clk; uint64_t step; };
 Stamp stamp();                       // mark "this thread, now"
